@@ -607,7 +607,7 @@ void SoPlex_getRowVectorRational(void* soplex, int i, int* nnonzeros, long* indi
 #else
    SoPlex* so = (SoPlex*)(soplex);
    LPRowRational lprow;
-   SVectorRational row;
+   DSVectorRational row;   // a plain SVectorRational owns no memory to assign into
 
    so->getRowRational(i, lprow);
    row = lprow.rowVector();
